@@ -51,9 +51,9 @@ func init() {
 		if ses.Dump == nil {
 			return nil
 		}
-		g := c19MakeCFG(ses.Dump)
+		g := c19MakeCFG(ses.Dump, c19pcTab{})
 		steps, tdump, tso, tend := c19Trace(src, len(ls) > 0, to)
-		tg := c19MakeCFG(tdump)
+		tg := c19MakeCFG(tdump, c19pcTab{})
 		fmt.Printf("trace: end=%s sameStdout=%v sameShape=%v steps=%d\n", tend, tso == pso, c19SameShape(g, tg), len(steps))
 		toks, ok, why := c19Tokens(steps, tg, g)
 		if !ok {
